@@ -367,7 +367,8 @@ theorem PubX.ofThs {i : Nat} {s s' : BSt} (h : PubX i s) (e : s'.ths = s.ths) : 
 theorem PubX.fp {i : Nat} {s s' : BSt} (h : PubX i s) (f : FP s s') : PubX i s' := fun j hj => f j (h j hj)
 
 theorem pubx_rqMove {i : Nat} {s : BSt} (h : PubX i s) (st : Stmt) (rest : List Stmt) : PubX i (rqMove s i st rest) := by
-  unfold PB.rqMove
+  refine PubX.ofThs (s := rqMove0 s i st rest) ?_ (rqMove_proj s i st rest).1
+  unfold PB.rqMove0
   refine PubX.setTh ?_ _
   refine PubX.ofThs (s := rqPrep s i) ?_ (rqDecode_ths _ _)
   unfold rqPrep; exact h.setTh _
